@@ -87,7 +87,14 @@ namespace glm
 		detail::float_t<float> const a(x);
 		detail::float_t<float> const b(y);
 
-		return abs(a.i - b.i);
+		// The bit patterns are sign-magnitude: map them onto a scale that increases with the value
+		// (+0 and -0 both at 0), so that values of opposite signs are counted across zero.
+		int const MinInt = std::numeric_limits<int>::min();
+		int const ia = a.negative() ? MinInt - a.i : a.i;
+		int const ib = b.negative() ? MinInt - b.i : b.i;
+
+		// Subtract as unsigned: the distance between values of opposite signs can exceed the range of int.
+		return static_cast<int>(ia > ib ? static_cast<uint>(ia) - static_cast<uint>(ib) : static_cast<uint>(ib) - static_cast<uint>(ia));
 	}
 
 	GLM_FUNC_QUALIFIER int64 float_distance(double x, double y)
@@ -95,7 +102,14 @@ namespace glm
 		detail::float_t<double> const a(x);
 		detail::float_t<double> const b(y);
 
-		return abs(a.i - b.i);
+		// The bit patterns are sign-magnitude: map them onto a scale that increases with the value
+		// (+0 and -0 both at 0), so that values of opposite signs are counted across zero.
+		int64 const MinInt = std::numeric_limits<int64>::min();
+		int64 const ia = a.negative() ? MinInt - a.i : a.i;
+		int64 const ib = b.negative() ? MinInt - b.i : b.i;
+
+		// Subtract as unsigned: the distance between values of opposite signs can exceed the range of int64.
+		return static_cast<int64>(ia > ib ? static_cast<detail::uint64>(ia) - static_cast<detail::uint64>(ib) : static_cast<detail::uint64>(ib) - static_cast<detail::uint64>(ia));
 	}
 
 	template<length_t L, typename T, qualifier Q>
